@@ -741,8 +741,31 @@ pub fn run_batch(id: &str, root: u64, max_runs: u64, secs: u64, jobs: usize, dig
     let mut merged = WorkerOut::default();
     let mut nontrivial: BTreeSet<u64> = BTreeSet::new();
     let mut states: BTreeSet<u64> = BTreeSet::new();
+    // Watchdog: a worker that is still running long after the deadline is stuck in a simulation that blocks for real
+    // (a fault left armed outside a scheduled phase, code under test waiting on a real condition variable): that is a
+    // harness error (exit 2), never a silent hang.
+    let give_up_at = deadline + 1000 * secs.max(300);
+    let mut pids: Vec<u32> = children.iter().map(|c| c.0.id()).collect();
     for (mut ch, outfile) in children {
-        let st = ch.wait().unwrap();
+        let st = loop {
+            match ch.try_wait().unwrap() {
+                Some(st) => break st,
+                None => {
+                    if now_ms() > give_up_at {
+                        eprintln!("HARNESS ERROR: a worker is still running {}s after its deadline; killing the batch", (now_ms() - deadline) / 1000);
+                        for p in pids.iter() {
+                            unsafe {
+                                libc::kill(*p as i32, libc::SIGKILL);
+                            }
+                        }
+                        let _ = std::fs::remove_dir_all(&tmp);
+                        std::process::exit(2);
+                    }
+                    std::thread::sleep(std::time::Duration::from_millis(50));
+                }
+            }
+        };
+        pids.retain(|p| *p != ch.id());
         if !st.success() {
             eprintln!("HARNESS ERROR: worker exited with {:?}", st.code());
             let _ = std::fs::remove_dir_all(&tmp);
